@@ -4,6 +4,8 @@ CONSTANTS
   MaxView = 0
   Height = 1
   InitSilentSets <- SilentNone
+  BugQuorum = FALSE
+  BugNoCommitLock = FALSE
   MaxSilentChanges = 0
 INVARIANTS Agreement AcceptJustified CommitLock
 CHECK_DEADLOCK FALSE
